@@ -23,6 +23,7 @@ type Output struct {
 	Diags  []DiagRec
 	Fixes  []FixRec
 	Behave []BehaveRec
+	RoundTrip []RTRec
 	Stats  map[string]int
 	Notes  []string
 }
